@@ -112,6 +112,18 @@ def _row_frames(kind: str, res, sc: dict) -> tuple[list, list, list]:
 
 
 def run_case(sc: dict) -> dict:
+    try:
+        return _run_case(sc)
+    except MachineryError as e:
+        return {"status": "machinery", "detail": str(e)[:500], "trace": None, "discard": None, "more": []}
+    except Exception as e:  # noqa: BLE001  (e.g. the independent Simulator run itself breaks on this tree)
+        import traceback
+
+        return {"status": "machinery", "detail": f"{type(e).__name__}: {e}\n{traceback.format_exc()[-800:]}",
+                "trace": None, "discard": None, "more": []}
+
+
+def _run_case(sc: dict) -> dict:
     """Run one configuration through the real code; judge every row; build the trace for TLC."""
     import numpy as np  # noqa: F401
 
@@ -395,9 +407,12 @@ def run(ctx: Ctx) -> int:
         sc["id"] = f"c{n}"
         sc["log"] = str(ctx.work / "logs" / f"c{n}.jsonl")
     results = crashkit.lanes(run_case, scs, ctx.work, tag="scan")
-    traces, discarded, timeouts = [], 0, 0
+    traces, discarded, timeouts, inlane = [], 0, 0, []
     for sc, r in zip(scs, results):
         rep.evaluations += 1
+        if r["status"] == "machinery":
+            inlane.append(r["detail"])
+            continue
         scen = {k: sc[k] for k in ("cfg", "dur", "forder", "ftick", "eorder", "vals", "expect")}
         if r["status"] == "timeout":
             timeouts += 1
@@ -419,10 +434,13 @@ def run(ctx: Ctx) -> int:
     for sc in scs[:: max(1, len(scs) // 4)][:4]:
         rep.sample({k: sc[k] for k in ("cfg", "dur", "forder", "eorder", "expect")})
     rep.notes.update({"configurations": len(scs), "discarded_completion_order_not_realised": discarded, "timeouts": timeouts})
+    machinery = None
     if timeouts:
-        raise MachineryError(f"{timeouts} scans did not return within 120 s")
-    if discarded > 0.15 * len(scs):
-        raise MachineryError(f"{discarded} of {len(scs)} scans did not realise the intended completion order")
+        machinery = f"{timeouts} scans did not return within 120 s"
+    elif discarded > 0.15 * len(scs):
+        machinery = f"{discarded} of {len(scs)} scans did not realise the intended completion order"
+    elif inlane:
+        machinery = f"{len(inlane)} cases could not be judged: {inlane[0]}"
 
     # ---- code -> spec ---------------------------------------------------------------------------------------
     donor = max((t for t in traces if t["cfg"]["n"] >= 3 and any(e["e"] == "eval" and e["t"] == "val" for e in t["ev"])),
@@ -446,8 +464,14 @@ def run(ctx: Ctx) -> int:
             raise MachineryError(f"binding self-test: corrupted copies of an accepted trace were accepted: {wrongly}")
         rep.notes["binding_selftest"] = {c["id"]: f"rejected after {tv['prefix'].get(c['id'], 0)} of {len(c['ev'])} events"
                                          for c in corrupt.values()}
-    elif not rep.violations and not rep.known_hits:
+    elif not rep.violations:
         raise MachineryError("binding self-test: no accepted trace to corrupt")
+    else:
+        rep.notes["binding_selftest"] = "skipped: no accepted trace on this tree (see the violations)"
+    if machinery and not rep.violations:
+        raise MachineryError(machinery)
+    if machinery:
+        rep.notes["machinery_note"] = machinery + " (next to the violations reported)"
     return rep.finish()
 
 
